@@ -206,7 +206,6 @@ def _pass(fn, mode, cpu_limit):
             tracemalloc.stop()
         signal.signal(signal.SIGPROF, old if old is not None else signal.SIG_DFL)
         _S.mode = None
-    gc.collect()
     return {"exc": exc, "msg": msg, "value": value, "cpu": round(cpu, 3), "abort": _S.abort, "peak": peak}
 
 
